@@ -56,4 +56,19 @@ theorem py_clarity_criteria : Py.clarity_criteria.ok = false ∨
     all_goals (repeat' constructor)
     all_goals (split_ifs <;> py_logic)
 
+/-! ## C16: trimming to the search range -/
+
+/-- `trim_curve`, translated from the source: the limits are the minimum and the maximum of the pair (in either order), the distances are taken to those
+limits, and the slice runs from the first sample nearest to the lower limit through (inclusive: `+ 1`) the first sample nearest to the upper limit --
+`trimIdxs` of the model with `nearestIdx` for the two first-nearest samples -/
+theorem py_trim_curve_indices : Py.trim_curve_indices.ok = false ∨
+    ∀ (a b f : ℝ) (iLow iUpp : ℤ),
+      Py.trim_curve_indices a b f iLow iUpp = (minA a b, maxA a b, |f - minA a b|, |f - maxA a b|, iLow, iUpp + 1) := by
+  bridge_cases
+    intro a b f iLow iUpp
+    simp only [Py.trim_curve_indices, minA, maxA, absA_real]
+
+theorem py_trim_curve_model (freq : List ℝ) (a b : ℝ) :
+    trimIdxs freq a b = (nearestIdx freq (minA a b), nearestIdx freq (maxA a b) + 1) := rfl
+
 end HV.Bridge
